@@ -17,6 +17,7 @@ HERE = os.path.dirname(os.path.abspath(__file__))
 sys.path.insert(0, HERE)
 import vx  # noqa: E402
 import kx  # noqa: E402
+import nx  # noqa: E402
 import props as P  # noqa: E402
 from rsrc import LostAnchor  # noqa: E402
 
@@ -61,11 +62,12 @@ def attribute(f, fail, prop, lines):
     """does this failure count against `prop`?  returns label or None"""
     kind = failure_kind(fail['message'])
     if kind == 'post' and fail.get('clause_line'):
-        # find the label on the clause line, or the nearest label above it inside the contract
-        cl = fail['clause_line']
-        lab = f.clause_labels.get(cl)
-        if lab:
-            return lab[1] if lab[0] == prop and fn_has_prop(f, prop) else None
+        # labels inside the failed clause (a clause may span several lines and carry several labels)
+        lo, hi = fail['clause_line'], fail.get('clause_end') or fail['clause_line']
+        labs = [f.clause_labels[n] for n in sorted(f.clause_labels) if lo <= n <= hi]
+        if labs:
+            mine = [l for (p, l) in labs if p == prop]
+            return '+'.join(mine) if mine and fn_has_prop(f, prop) else None
     if tag_applies(f.props, prop, kind):
         if kind == 'post':
             return 'post:' + re.sub(r'\s+', ' ', span_text(lines, fail.get('clause_line')))[:100]
@@ -265,6 +267,23 @@ def main(argv):
             elif ms:
                 undecided.append('Verus failed `%s` in %s and its Kani mirror(s) were inconclusive: %s'
                                  % (pv['label'][:120], pv['fn'], [(m['name'], m['status']) for m in ms]))
+            elif not ms and nx.witnesses_for(pv['unit'], pv['fn'], pv['label']):
+                ws = nx.witnesses_for(pv['unit'], pv['fn'], pv['label'])
+                try:
+                    nres = nx.run([w['test'] for w in ws])
+                except Exception as e:  # a broken witness build must not mask the verifier's verdict
+                    nres = {}
+                    pv['message'] += ' || native witness could not be run: %s' % str(e)[:200]
+                hit = [(n, r) for n, r in nres.items() if r[0]]
+                if hit:
+                    pv['witness'] = {'native_test': hit[0][0], 'log': hit[0][1][2], 'cmd': hit[0][1][3], 'test': None}
+                    pv['message'] += ' || native witness test %s FAILS on the real code' % hit[0][0]
+                    violations.append(pv)
+                elif pv['ghost_lost']:
+                    undecided.append('Verus failed `%s` in %s after proof-hint anchors were lost (%s); native witness does not reproduce -> undecided'
+                                     % (pv['label'][:120], pv['fn'], pv['ghost_lost']))
+                else:
+                    violations.append(pv)
             elif pv['ghost_lost']:
                 undecided.append('Verus failed `%s` in %s after proof-hint anchors were lost (%s); no Kani mirror -> undecided'
                                  % (pv['label'][:120], pv['fn'], pv['ghost_lost']))
